@@ -230,3 +230,311 @@ Theorem C10_decoder_read_fault : forall (HO : hops) (st : dstate_r HO) k kind c 
                    | CLeaf start _ _ _ => maybe_leaf_not_found kind start end.
 Proof. exact dec_next_r_read_fault. Qed.
 Print Assumptions C10_decoder_read_fault.
+
+(* ======================================================================================================
+   Gap audit additions (Proofs/GapC10Read.v, Proofs/GapC10Source.v)
+   ====================================================================================================== *)
+From BaoV Require Import Model.Fsm Proofs.ObCreate Proofs.GapC10Read Proofs.GapC10Source.
+
+(* ---- a reader whose k-th call fails, under the whole runs ---- *)
+(* the fsm twin of C10_decoder_read_fault (parents: tokio read_exact, so no Interrupted in the schedule) *)
+Theorem C10_decoder_read_fault_fsm : forall (HO : hops) (st : rstate_r HO) k kind c iter',
+  response_next (rr_iter HO st) = Some (c, iter') ->
+  rd_fail HO (rr_rd HO st) = Some (k, kind) -> kind <> KInterrupted -> rd_calls HO (rr_rd HO st) = k ->
+  (forall e, In e (rd_sched HO (rr_rd HO st)) -> e <> EIntr) ->
+  0 < chunk_size c ->
+  exists e rd', rd_next_r HO st = Some (Err e, mkRR HO iter' (rr_stack HO st) rd') /\
+    rd_calls HO rd' = k + 1 /\ rd_rest HO rd' = rd_rest HO (rr_rd HO st) /\
+    e = match c with CParent node _ _ _ _ => maybe_parent_not_found kind node
+                   | CLeaf start _ _ _ => maybe_leaf_not_found kind start end.
+Proof. exact rd_next_r_read_fault. Qed.
+Print Assumptions C10_decoder_read_fault_fsm.
+
+(* the sync decoder run to its end over ANY stream (honest or not), any schedule, the k-th read call failing:
+   either the fault is never reached (at most k calls; items and outcome are those of the plain run), or the run
+   ends with the io error / the not-found error naming the item c being read, the items yielded are a prefix of
+   the plain run's, and the reader has been called exactly k+1 times *)
+Theorem C10_decode_run_read_fault : forall (HO : hops) root t (stream : bytes HO) (sched : list ev) q k kind,
+  kind <> KInterrupted ->
+  let x := dec_run_r HO (dec_new_r HO root t (mkRd HO stream sched 0 (Some (k, kind))) q) in
+  let y := dec_run HO (dec_new HO root t stream q) in
+  (fst x = fst y /\ rd_calls HO (dr_rd HO (snd x)) <= k) \/
+  (exists more c inner,
+     fst (fst y) = fst (fst x) ++ more /\
+     response_next inner = Some (c, dr_inner HO (snd x)) /\
+     snd (fst x) = Failed (match c with
+                           | CParent node _ _ _ _ => maybe_parent_not_found kind node
+                           | CLeaf start _ _ _ => maybe_leaf_not_found kind start
+                           end) /\
+     rd_calls HO (dr_rd HO (snd x)) = k + 1).
+Proof. exact dec_run_read_fault. Qed.
+Print Assumptions C10_decode_run_read_fault.
+
+Theorem C10_decode_run_read_fault_fsm : forall (HO : hops) root q t (stream : bytes HO) (sched : list ev) k kind,
+  kind <> KInterrupted -> (forall e, In e sched -> e <> EIntr) ->
+  let x := rd_run_r HO (rd_new_r HO root q t (mkRd HO stream sched 0 (Some (k, kind)))) in
+  let y := rd_run HO (rd_new HO root q t stream) in
+  (fst x = fst y /\ rd_calls HO (rr_rd HO (snd x)) <= k) \/
+  (exists more c iter,
+     fst (fst y) = fst (fst x) ++ more /\
+     response_next iter = Some (c, rr_iter HO (snd x)) /\
+     snd (fst x) = Failed (match c with
+                           | CParent node _ _ _ _ => maybe_parent_not_found kind node
+                           | CLeaf start _ _ _ => maybe_leaf_not_found kind start
+                           end) /\
+     rd_calls HO (rr_rd HO (snd x)) = k + 1).
+Proof. exact rd_run_read_fault. Qed.
+Print Assumptions C10_decode_run_read_fault_fsm.
+
+Theorem C10_read_fault_nonvacuous : forall (HO : hops),
+  fst (dec_run_r HO (dec_new_r HO [] (mkTree 2048 0) (mkRd HO [] [EPending; EFrag 3] 0 (Some (0, KOther))) [0]))
+    = ([], Failed (DIo KOther)) /\
+  fst (dec_run_r HO (dec_new_r HO [] (mkTree 2048 0) (mkRd HO [] [] 0 (Some (0, KUnexpectedEof))) [0]))
+    = ([], Failed (DParentNotFound 0)) /\
+  fst (rd_run_r HO (rd_new_r HO [] [0] (mkTree 2048 0) (mkRd HO [] [EPending; EFrag 3] 0 (Some (0, KConnectionReset)))))
+    = ([], Failed (DIo KConnectionReset)).
+Proof. exact dec_run_read_fault_nonvacuous. Qed.
+Print Assumptions C10_read_fault_nonvacuous.
+
+(* outboard_post_order reading the blob from a stream whose k-th read fails: that error, the pairs written so far
+   are a prefix of the fault-free output, no further read *)
+Theorem C10_outboard_post_order_read_fault : forall (HO : hops) t (data : bytes HO) (sched : list ev) k kind,
+  kind <> KInterrupted ->
+  let x := outboard_post_order_r HO t (mkRd HO data sched 0 (Some (k, kind))) in
+  let y := outboard_post_order HO t data in
+  (fst x = fst y /\ rd_calls HO (snd x) <= k) \/
+  (fst (fst x) = Err kind /\ (exists more, snd (fst y) = snd (fst x) ++ more) /\ rd_calls HO (snd x) = k + 1).
+Proof. exact outboard_post_order_read_fault. Qed.
+Print Assumptions C10_outboard_post_order_read_fault.
+
+(* sync::outboard into any outboard store: the store at the failure is reached from the initial one by
+   successful saves (save_all .. l1), and the fault-free final store from it by further saves (l2) *)
+Theorem C10_outboard_read_fault : forall (HO : hops) t (data : bytes HO) (sched : list ev) (ob : outboard HO) k kind,
+  kind <> KInterrupted ->
+  let x := outboard_impl_r HO t (mkRd HO data sched 0 (Some (k, kind))) ob in
+  let y := outboard_impl HO t data ob in
+  (fst x = fst y /\ rd_calls HO (snd x) <= k) \/
+  (fst (fst x) = Err kind /\ rd_calls HO (snd x) = k + 1 /\
+   exists l1 l2, save_all HO ob l1 = Ok (snd (fst x)) /\ save_all HO (snd (fst x)) l2 = Ok (snd (fst y))).
+Proof. exact outboard_impl_read_fault. Qed.
+Print Assumptions C10_outboard_read_fault.
+
+Theorem C10_outboard_read_fault_nonvacuous : forall (HO : hops),
+  fst (fst (outboard_post_order_r HO (mkTree 2048 0) (mkRd HO (repeat (bzero HO) 2048) [EFrag 1000] 0 (Some (2, KOther)))))
+    = Err KOther /\
+  rd_calls HO (snd (outboard_post_order_r HO (mkTree 2048 0) (mkRd HO (repeat (bzero HO) 2048) [EFrag 1000] 0 (Some (2, KOther)))))
+    = 3.
+Proof. exact outboard_read_fault_nonvacuous. Qed.
+Print Assumptions C10_outboard_read_fault_nonvacuous.
+
+(* ---- a blob that ends early ("short data during outboard creation"), sync and fsm entry points ---- *)
+Theorem C10_outboard_truncated : forall (HO : hops) t (data more : bytes HO) (ob : outboard HO),
+  fst (outboard_impl HO t data ob) = fst (outboard_impl HO t (data ++ more) ob) \/
+  (fst (fst (outboard_impl HO t data ob)) = Err KUnexpectedEof /\
+   exists l1 l2, save_all HO ob l1 = Ok (snd (fst (outboard_impl HO t data ob))) /\
+     save_all HO (snd (fst (outboard_impl HO t data ob))) l2 = Ok (snd (fst (outboard_impl HO t (data ++ more) ob)))).
+Proof. exact outboard_impl_truncated. Qed.
+Print Assumptions C10_outboard_truncated.
+Theorem C10_outboard_truncated_fsm : forall (HO : hops) t (data more : bytes HO) (ob : outboard HO),
+  fst (outboard_impl_fsm HO t data ob) = fst (outboard_impl_fsm HO t (data ++ more) ob) \/
+  (fst (fst (outboard_impl_fsm HO t data ob)) = Err KUnexpectedEof /\
+   exists l1 l2, save_all HO ob l1 = Ok (snd (fst (outboard_impl_fsm HO t data ob))) /\
+     save_all HO (snd (fst (outboard_impl_fsm HO t data ob))) l2 = Ok (snd (fst (outboard_impl_fsm HO t (data ++ more) ob)))).
+Proof. exact outboard_impl_fsm_truncated. Qed.
+Print Assumptions C10_outboard_truncated_fsm.
+Theorem C10_outboard_post_order_truncated : forall (HO : hops) t (data more : bytes HO),
+  fst (outboard_post_order HO t data) = fst (outboard_post_order HO t (data ++ more)) \/
+  (fst (fst (outboard_post_order HO t data)) = Err KUnexpectedEof /\
+   exists later, snd (fst (outboard_post_order HO t (data ++ more))) = snd (fst (outboard_post_order HO t data)) ++ later).
+Proof. exact outboard_post_order_truncated. Qed.
+Print Assumptions C10_outboard_post_order_truncated.
+Theorem C10_outboard_post_order_truncated_fsm : forall (HO : hops) t (data more : bytes HO),
+  fst (outboard_post_order_fsm HO t data) = fst (outboard_post_order_fsm HO t (data ++ more)) \/
+  (fst (fst (outboard_post_order_fsm HO t data)) = Err KUnexpectedEof /\
+   exists later, snd (fst (outboard_post_order_fsm HO t (data ++ more))) = snd (fst (outboard_post_order_fsm HO t data)) ++ later).
+Proof. exact outboard_post_order_fsm_truncated. Qed.
+Print Assumptions C10_outboard_post_order_truncated_fsm.
+Theorem C10_init_from_truncated : forall (HO : hops) (ob : outboard HO) (data more : bytes HO),
+  init_from HO ob data = init_from HO ob (data ++ more) \/ init_from HO ob data = Err KUnexpectedEof.
+Proof. exact init_from_truncated. Qed.
+Print Assumptions C10_init_from_truncated.
+Theorem C10_init_from_truncated_fsm : forall (HO : hops) (ob : outboard HO) (data more : bytes HO),
+  init_from_fsm HO ob data = init_from_fsm HO ob (data ++ more) \/ init_from_fsm HO ob data = Err KUnexpectedEof.
+Proof. exact init_from_fsm_truncated. Qed.
+Print Assumptions C10_init_from_truncated_fsm.
+
+(* ---- failing SOURCES under the operational model ----
+   (data', ob') answer every positioned read / load as (data, ob) do, or fail it with an io error.  Then the
+   operation gives the same result, or exactly such an io error k (EncodeError::Io k / Err k: never
+   LeafWrite / ParentWrite, a hash mismatch, Ok or a panic), having emitted a prefix of the other run's output. *)
+Theorem C10_encode_ranges_source_fault : forall (HO : hops) (data data' : bytes HO) (ob ob' : outboard HO) q,
+  ob_tree ob' = ob_tree ob ->
+  (forall n, load_sync HO ob' n = load_sync HO ob n \/ exists k, load_sync HO ob' n = Err k) ->
+  (forall o l, read_exact_at HO data' o l = read_exact_at HO data o l \/ exists k, read_exact_at HO data' o l = Err k) ->
+  encode_ranges HO data' ob' q = encode_ranges HO data ob q \/
+  exists k more, fst (encode_ranges HO data' ob' q) = Err (EIo k) /\
+    snd (encode_ranges HO data ob q) = snd (encode_ranges HO data' ob' q) ++ more /\
+    ((exists n, load_sync HO ob' n = Err k) \/ (exists o l, read_exact_at HO data' o l = Err k)).
+Proof. exact encode_ranges_source_fault. Qed.
+Print Assumptions C10_encode_ranges_source_fault.
+
+Theorem C10_encode_ranges_source_fault_fsm : forall (HO : hops) (data data' : bytes HO) (ob ob' : outboard HO) q,
+  ob_tree ob' = ob_tree ob ->
+  (forall n, load_fsm HO ob' n = load_fsm HO ob n \/ exists k, load_fsm HO ob' n = Err k) ->
+  (forall o l, read_exact_at HO data' o l = read_exact_at HO data o l \/ exists k, read_exact_at HO data' o l = Err k) ->
+  encode_ranges_fsm HO data' ob' q = encode_ranges_fsm HO data ob q \/
+  exists k more, fst (encode_ranges_fsm HO data' ob' q) = Err (EIo k) /\
+    snd (encode_ranges_fsm HO data ob q) = snd (encode_ranges_fsm HO data' ob' q) ++ more /\
+    ((exists n, load_fsm HO ob' n = Err k) \/ (exists o l, read_exact_at HO data' o l = Err k)).
+Proof. exact encode_ranges_fsm_source_fault. Qed.
+Print Assumptions C10_encode_ranges_source_fault_fsm.
+
+Theorem C10_encode_ranges_validated_source_fault : forall (HO : hops) (data data' : bytes HO) (ob ob' : outboard HO) q,
+  ob_tree ob' = ob_tree ob -> ob_root ob' = ob_root ob ->
+  (forall n, load_sync HO ob' n = load_sync HO ob n \/ exists k, load_sync HO ob' n = Err k) ->
+  (forall o l, read_exact_at HO data' o l = read_exact_at HO data o l \/ exists k, read_exact_at HO data' o l = Err k) ->
+  encode_ranges_validated HO data' ob' q = encode_ranges_validated HO data ob q \/
+  exists k more, fst (encode_ranges_validated HO data' ob' q) = Err (EIo k) /\
+    snd (encode_ranges_validated HO data ob q) = snd (encode_ranges_validated HO data' ob' q) ++ more /\
+    ((exists n, load_sync HO ob' n = Err k) \/ (exists o l, read_exact_at HO data' o l = Err k)).
+Proof. exact encode_ranges_validated_source_fault. Qed.
+Print Assumptions C10_encode_ranges_validated_source_fault.
+
+Theorem C10_encode_ranges_validated_source_fault_fsm : forall (HO : hops) (data data' : bytes HO) (ob ob' : outboard HO) q,
+  ob_tree ob' = ob_tree ob -> ob_root ob' = ob_root ob ->
+  (forall n, load_fsm HO ob' n = load_fsm HO ob n \/ exists k, load_fsm HO ob' n = Err k) ->
+  (forall o l, read_exact_at HO data' o l = read_exact_at HO data o l \/ exists k, read_exact_at HO data' o l = Err k) ->
+  encode_ranges_validated_fsm HO data' ob' q = encode_ranges_validated_fsm HO data ob q \/
+  exists k more, fst (encode_ranges_validated_fsm HO data' ob' q) = Err (EIo k) /\
+    snd (encode_ranges_validated_fsm HO data ob q) = snd (encode_ranges_validated_fsm HO data' ob' q) ++ more /\
+    ((exists n, load_fsm HO ob' n = Err k) \/ (exists o l, read_exact_at HO data' o l = Err k)).
+Proof. exact encode_ranges_validated_fsm_source_fault. Qed.
+Print Assumptions C10_encode_ranges_validated_source_fault_fsm.
+
+(* the item stream (mixed::traverse_ranges_validated): Size, the items so far, then Error(Io k) as the last item *)
+Theorem C10_traverse_source_fault : forall (HO : hops) (data data' : bytes HO) (ob ob' : outboard HO) q,
+  ob_tree ob' = ob_tree ob -> ob_root ob' = ob_root ob ->
+  (forall n, load_sync HO ob' n = load_sync HO ob n \/ exists k, load_sync HO ob' n = Err k) ->
+  (forall o l, read_exact_at HO data' o l = read_exact_at HO data o l \/ exists k, read_exact_at HO data' o l = Err k) ->
+  traverse_ranges_validated HO data' ob' q = traverse_ranges_validated HO data ob q \/
+  exists k its,
+    traverse_ranges_validated HO data' ob' q
+      = Some (ESize (tsize (ob_tree ob)) :: map EItem its ++ [EError (EIo k)]) /\
+    ((exists n, load_sync HO ob' n = Err k) \/ (exists o l, read_exact_at HO data' o l = Err k)) /\
+    (forall l, traverse_ranges_validated HO data ob q = Some l ->
+       exists more last, l = ESize (tsize (ob_tree ob)) :: map EItem (its ++ more) ++ [last]).
+Proof. exact traverse_ranges_validated_source_fault. Qed.
+Print Assumptions C10_traverse_source_fault.
+
+(* the validators forward the error as the last stream item: the ranges yielded before it are a prefix *)
+Theorem C10_valid_ranges_source_fault : forall (HO : hops) (data data' : bytes HO) (ob ob' : outboard HO) q,
+  ob_tree ob' = ob_tree ob -> ob_root ob' = ob_root ob ->
+  (forall n, load_sync HO ob' n = load_sync HO ob n \/ exists k, load_sync HO ob' n = Err k) ->
+  (forall o l, read_exact_at HO data' o l = read_exact_at HO data o l \/ exists k, read_exact_at HO data' o l = Err k) ->
+  valid_ranges HO ob' data' q = valid_ranges HO ob data q \/
+  exists k more, snd (valid_ranges HO ob' data' q) = Err k /\
+    fst (valid_ranges HO ob data q) = fst (valid_ranges HO ob' data' q) ++ more /\
+    ((exists n, load_sync HO ob' n = Err k) \/ (exists o l, read_exact_at HO data' o l = Err k)).
+Proof. exact valid_ranges_source_fault. Qed.
+Print Assumptions C10_valid_ranges_source_fault.
+
+Theorem C10_valid_ranges_source_fault_fsm : forall (HO : hops) (data data' : bytes HO) (ob ob' : outboard HO) q,
+  ob_tree ob' = ob_tree ob -> ob_root ob' = ob_root ob ->
+  (forall n, load_fsm HO ob' n = load_fsm HO ob n \/ exists k, load_fsm HO ob' n = Err k) ->
+  (forall o l, read_exact_at HO data' o l = read_exact_at HO data o l \/ exists k, read_exact_at HO data' o l = Err k) ->
+  valid_ranges_fsm HO ob' data' q = valid_ranges_fsm HO ob data q \/
+  exists k more, snd (valid_ranges_fsm HO ob' data' q) = Err k /\
+    fst (valid_ranges_fsm HO ob data q) = fst (valid_ranges_fsm HO ob' data' q) ++ more /\
+    ((exists n, load_fsm HO ob' n = Err k) \/ (exists o l, read_exact_at HO data' o l = Err k)).
+Proof. exact valid_ranges_fsm_source_fault. Qed.
+Print Assumptions C10_valid_ranges_source_fault_fsm.
+
+Theorem C10_valid_outboard_ranges_source_fault : forall (HO : hops) (ob ob' : outboard HO) q,
+  ob_tree ob' = ob_tree ob -> ob_root ob' = ob_root ob ->
+  (forall n, load_sync HO ob' n = load_sync HO ob n \/ exists k, load_sync HO ob' n = Err k) ->
+  valid_outboard_ranges HO ob' q = valid_outboard_ranges HO ob q \/
+  exists k more, snd (valid_outboard_ranges HO ob' q) = Err k /\
+    fst (valid_outboard_ranges HO ob q) = fst (valid_outboard_ranges HO ob' q) ++ more /\
+    (exists n, load_sync HO ob' n = Err k).
+Proof. exact valid_outboard_ranges_source_fault. Qed.
+Print Assumptions C10_valid_outboard_ranges_source_fault.
+
+Theorem C10_valid_outboard_ranges_source_fault_fsm : forall (HO : hops) (ob ob' : outboard HO) q,
+  ob_tree ob' = ob_tree ob -> ob_root ob' = ob_root ob ->
+  (forall n, load_fsm HO ob' n = load_fsm HO ob n \/ exists k, load_fsm HO ob' n = Err k) ->
+  valid_outboard_ranges_fsm HO ob' q = valid_outboard_ranges_fsm HO ob q \/
+  exists k more, snd (valid_outboard_ranges_fsm HO ob' q) = Err k /\
+    fst (valid_outboard_ranges_fsm HO ob q) = fst (valid_outboard_ranges_fsm HO ob' q) ++ more /\
+    (exists n, load_fsm HO ob' n = Err k).
+Proof. exact valid_outboard_ranges_fsm_source_fault. Qed.
+Print Assumptions C10_valid_outboard_ranges_source_fault_fsm.
+
+Theorem C10_copy_source_fault : forall (HO : hops) (from from' to : outboard HO),
+  ob_tree from' = ob_tree from ->
+  (forall n, load_sync HO from' n = load_sync HO from n \/ exists k, load_sync HO from' n = Err k) ->
+  copy HO from' to = copy HO from to \/
+  exists k, copy HO from' to = Err k /\ exists n, load_sync HO from' n = Err k.
+Proof. exact copy_source_fault. Qed.
+Print Assumptions C10_copy_source_fault.
+Theorem C10_copy_source_fault_fsm : forall (HO : hops) (from from' to : outboard HO),
+  ob_tree from' = ob_tree from ->
+  (forall n, load_fsm HO from' n = load_fsm HO from n \/ exists k, load_fsm HO from' n = Err k) ->
+  copy_fsm HO from' to = copy_fsm HO from to \/
+  exists k, copy_fsm HO from' to = Err k /\ exists n, load_fsm HO from' n = Err k.
+Proof. exact copy_fsm_source_fault. Qed.
+Print Assumptions C10_copy_source_fault_fsm.
+
+(* the hypotheses are met by truncated stores (the failures byte-vector sources can produce) ... *)
+Theorem C10_source_fault_nonvacuous_data : forall (HO : hops) (d : bytes HO) n o l,
+  read_exact_at HO (firstn n d) o l = read_exact_at HO d o l \/ exists k, read_exact_at HO (firstn n d) o l = Err k.
+Proof. exact read_exact_at_truncated_deg. Qed.
+Print Assumptions C10_source_fault_nonvacuous_data.
+Theorem C10_source_fault_nonvacuous_outboard : forall (HO : hops) (k : ob_kind) root t (d : bytes HO) n node,
+  k = PreIO \/ k = PostIO ->
+  load_sync HO (mkOb k root t (firstn n d)) node = load_sync HO (mkOb k root t d) node \/
+  load_sync HO (mkOb k root t (firstn n d)) node = Err KUnexpectedEof.
+Proof. exact load_sync_truncated. Qed.
+Print Assumptions C10_source_fault_nonvacuous_outboard.
+(* ... and the failing branch occurs: a one-byte blob whose data file is empty *)
+Theorem C10_source_fault_nonvacuous_run : forall (HO : hops),
+  (forall o l, read_exact_at HO (firstn 0 [bzero HO]) o l = read_exact_at HO [bzero HO] o l \/
+               exists k, read_exact_at HO (firstn 0 [bzero HO]) o l = Err k) /\
+  encode_ranges_validated HO (firstn 0 [bzero HO]) (mkOb EmptyOb (hash_subtree HO 0 [bzero HO] true) (mkTree 1 0) []) [0]
+  = (Err (EIo KUnexpectedEof), []).
+Proof. exact encode_ranges_source_fault_nonvacuous. Qed.
+Print Assumptions C10_source_fault_nonvacuous_run.
+(* the fsm outboard loads of the model cannot fail (a short read of an io-backed outboard is a zero pair): for
+   the fsm theorems above only the data hypothesis can be met by a failure *)
+Theorem C10_fsm_loads_never_fail : forall (HO : hops) (ob : outboard HO) node k, load_fsm HO ob node <> Err k.
+Proof. exact load_fsm_never_err. Qed.
+Print Assumptions C10_fsm_loads_never_fail.
+
+(* ---- a failing WRITER under an operational run (environment model of Proofs/GapC11Env.v: `encode_ranges_env` is
+   the model's sync encode_ranges with its positioned reads and its write_all calls going through scheduled
+   environments; the sink is full after `cap` bytes).  Whatever the read and write schedules: everything fits and
+   the result is the model's, or the result is Io(WriteZero) and the sink holds exactly the first `cap` bytes of
+   the fault-free output ---- *)
+From BaoV Require Import Proofs.GapC11Env Proofs.GapC10Sink.
+Theorem C10_encode_ranges_sink_full : forall (HO : hops) (p : pstore HO) (ob : outboard HO) q ws cap,
+  exists p' w',
+    encode_ranges_env HO p ob q (mkSink HO [] ws (Some cap))
+      = ((if blen HO (snd (encode_ranges HO (ps_data HO p) ob q)) <=? cap
+          then fst (encode_ranges HO (ps_data HO p) ob q) else Err (EIo KWriteZero)), p', w') /\
+    sk_out HO w' = take HO cap (snd (encode_ranges HO (ps_data HO p) ob q)).
+Proof. exact encode_ranges_env_full. Qed.
+Print Assumptions C10_encode_ranges_sink_full.
+
+(* ---- observation (sync / fsm divergence, by design of fsm's load: src/io/fsm.rs:157-168): an io-backed outboard
+   FILE that is too short is an io error for the sync code, but a zero pair for the fsm code: the non-validating
+   fsm encoder then SENDS ZERO HASHES AND SUCCEEDS, the validating one reports a hash mismatch ---- *)
+Theorem C10_fsm_short_outboard_is_not_an_io_error : forall (HO : hops),
+  let t := mkTree 2048 0 in
+  let data := repeat (bzero HO) 2048 in
+  let ob := mkOb PreIO (zero_hash HO) t [] in
+  encode_ranges HO data ob [0] = (Err (EIo KUnexpectedEof), []) /\
+  encode_ranges_fsm HO data ob [0] = (Ok tt, zero_hash HO ++ zero_hash HO ++ data) /\
+  fst (encode_ranges_validated HO data ob [0]) = Err (EIo KUnexpectedEof) /\
+  (bytes_eqb HO (parent_cv HO (zero_hash HO) (zero_hash HO) true) (zero_hash HO) = false ->
+   fst (encode_ranges_validated_fsm HO data ob [0]) = Err (EParentHashMismatch 0)).
+Proof. exact fsm_short_outboard_is_not_an_io_error. Qed.
+Print Assumptions C10_fsm_short_outboard_is_not_an_io_error.
